@@ -1,25 +1,33 @@
 (* C16 — Derivation-tree operations keep paths, strings, openness and identity consistent.
    Only statements + `exact`; proofs in Tree/TreeOpsFacts.v, Tree/CacheFacts.v, Tree/TrieFacts.v and
-   (proof extension) Tree/TrieMore.v, Tree/TreeOpsMore.v, Tree/CacheMore.v.
+   (proof extensions) Tree/TrieMore.v, Tree/TreeOpsMore.v, Tree/CacheMore.v, Tree/PrefixMore.v,
+   Tree/PrefixReach.v, Tree/PrefixCompletion.v, Tree/SubstMore.v.
    Models: Tree/TreeOps.v (structure), Tree/Cache.v (is_open cache protocol, histories),
    Tree/Trie.v (key codec, datrie, SubtreesTrie).
 
    STATUS.  FULL: to_string / str, openness, is_open cache (cache_inv for ALL histories, including
    expand_one_step: C16_cache_inv), paths, is_valid_path, find_node, replace_path, structural hash,
+   structurally_equal (= equality after erasing ids, C16_structurally_equal),
    key codec, trie contents, next_path (least later path; follows paths(); iteration enumerates
    paths(); skip_children), leaves / open_leaves, filter(enforce_unique), is_prefix (path-wise
-   declarative spec PrefixOf; replacing an open leaf by a tree with the same label yields an
-   extension), is_potential_prefix (never out of fuel, = PotPrefix).
+   declarative spec PrefixOf AND its reachability reading: PrefixOf t u <-> u results from t by a
+   finite sequence of open-leaf replacements, ids ignored: C16_prefix_iff_expansions), the
+   completion notions of the fuzzer (C12) and of the evaluator imply is_prefix = True
+   (C16_completion_is_prefix, C16_compl_is_prefix, C16_fuzz_output_is_prefix),
+   is_potential_prefix (never out of fuel, = PotPrefix), new_ids (same structure, ids consecutive in
+   post-order, hence unique: C16_new_ids).
+   PARTIAL (guard K_chain = false): substitute = the SIMULTANEOUS substitution subst_sim under unique
+   ids (C16_substitute_partial; never raises).  The unguarded statement is REFUTED
+   (C16_substitute_refuted: a replacement whose root id is another key of the map is replaced
+   again - the result depends on the dict order; reproduced on the real code).
    PARTIAL (guard K_wide t = false, the open finding: a node with more than 28 children): every
    trie VIEW statement - keys / items / values of the root view AND of every sub-view
    (C16_trie_view_partial, C16_sub_items, C16_sub_values, C16_sub_keys), trie()[p].  The unguarded
    statements are REFUTED (C16_trie_view_refuted, C16_trie_getitem_refuted).
-   C16_cache_inv_partial is kept (it is implied by C16_cache_inv).
-   NOT PROVED: the converse reading of is_prefix as reachability ("PrefixOf t u -> u is obtained from
-   t by a SEQUENCE of open-leaf replacements"); only the per-step direction is proved
-   (C16_expand_leaf_is_prefix + reflexivity / transitivity of PrefixOf). *)
+   C16_cache_inv_partial is kept (it is implied by C16_cache_inv). *)
 From ISLA Require Import Tree PathFacts TreeFacts TreeOps TreeOpsFacts Cache CacheFacts Trie TrieFacts.
-From ISLA Require Import TrieMore TreeOpsMore CacheMore PrefixMore.
+From ISLA Require Import TrieMore TreeOpsMore CacheMore PrefixMore PrefixReach.
+From ISLA Require Import Grammar Fuzz FuzzFacts Eval3Facts PrefixCompletion SubstMore.
 From Coq Require Import Sorted.
 
 (* ---- strings ---- *)
@@ -224,6 +232,162 @@ Example C16_prefix_nonvacuous :
   /\ is_potential_prefix t u = Some true /\ is_potential_prefix u t = Some true.
 Proof. exact prefix_nonvacuous. Qed.
 Print Assumptions C16_prefix_nonvacuous.
+
+(* ---- reachability reading of is_prefix (proof extension 2, Tree/PrefixReach.v) ----
+   same_struct t u  := strip_ids t = strip_ids u            (equal after erasing all ids)
+   leaf_step t t'   := exists p leaf r, subtree t p = Some leaf /\ opn leaf = true /\ lbl r = lbl leaf
+                       /\ shape_ok r = true /\ replace_path t p r = Ok t'
+                       (ONE replace_path at the path of an open leaf, by a tree with the same label)
+   leaf_steps       := reflexive-transitive closure of leaf_step
+   expansions t u   := exists u', leaf_steps t u' /\ same_struct u' u     (ids ignored)
+   shape_ok = the representation invariant of encoded Python trees (children is None => no kids). *)
+Theorem C16_prefix_iff_expansions : forall t u, shape_ok t = true -> shape_ok u = true ->
+  (PrefixOf t u <-> expansions t u).
+Proof. exact prefix_iff_expansions. Qed.
+Print Assumptions C16_prefix_iff_expansions.
+
+(* the verdict of the code itself *)
+Theorem C16_is_prefix_iff_expansions : forall t u, shape_ok t = true -> shape_ok u = true ->
+  (is_prefix_t t u = true <-> expansions t u).
+Proof. exact is_prefix_iff_expansions. Qed.
+Print Assumptions C16_is_prefix_iff_expansions.
+
+(* soundness needs nothing about u: whatever is reached is a well-shaped extension *)
+Theorem C16_expansions_sound : forall t u, shape_ok t = true -> expansions t u ->
+  shape_ok u = true /\ PrefixOf t u.
+Proof. exact expansions_PrefixOf. Qed.
+Print Assumptions C16_expansions_sound.
+
+(* "ids ignored" is what the code's own structurally_equal decides *)
+Theorem C16_structurally_equal : forall t, shape_ok t = true -> forall u, shape_ok u = true ->
+  (structurally_equal t u = true <-> same_struct t u).
+Proof. exact structurally_equal_spec. Qed.
+Print Assumptions C16_structurally_equal.
+
+Example C16_expansions_nonvacuous :
+  let t := Node [60;97;62]%N 1 false [Node [60;98;62]%N 2 true []; Node [60;99;62]%N 3 true []] in
+  let u := Node [60;97;62]%N 7 false [Node [60;98;62]%N 8 false [Node [121]%N 9 false []];
+                                      Node [60;99;62]%N 5 false []] in
+  shape_ok t = true /\ shape_ok u = true /\ expansions t u /\ ~ expansions u t.
+Proof. exact expansions_nonvacuous. Qed.
+Print Assumptions C16_expansions_nonvacuous.
+
+(* ---- the completion notions of the other developments (Tree/PrefixCompletion.v) ----
+   FuzzFacts.completion (C12, specification of the fuzzer output) and Eval3Facts.compl (evaluator,
+   same node identities) are extensions in the sense of is_prefix; no hypothesis on the grammar or on
+   t is needed (a completion relates well-shaped trees by construction). *)
+Theorem C16_completion_is_prefix : forall g t t', completion g t t' ->
+  is_prefix_t t t' = true /\ PrefixOf t t' /\ expansions t t'.
+Proof. exact completion_is_prefix. Qed.
+Print Assumptions C16_completion_is_prefix.
+
+Theorem C16_compl_is_prefix : forall g t t', compl g t t' ->
+  is_prefix_t t t' = true /\ PrefixOf t t' /\ expansions t t'.
+Proof. exact compl_is_prefix. Qed.
+Print Assumptions C16_compl_is_prefix.
+
+(* with C12's expand_valid: every output of the abstract fuzzer run extends its input *)
+Theorem C16_fuzz_output_is_prefix : forall g t t', uses_defined g -> wf_tree g t -> expand_star g t t' ->
+  is_prefix_t t t' = true.
+Proof. exact fuzz_output_is_prefix. Qed.
+Print Assumptions C16_fuzz_output_is_prefix.
+
+Example C16_completion_nonvacuous :
+  completion ex_g ex_t ex_out /\ is_prefix_t ex_t ex_out = true
+  /\ compl SR_g SR_t SR_t' /\ is_prefix_t SR_t SR_t' = true.
+Proof. exact completion_is_prefix_nonvacuous. Qed.
+Print Assumptions C16_completion_nonvacuous.
+
+(* ---- substitute (proof extension 2, Tree/SubstMore.v) ----
+   Code: assert has_unique_ids; id_subst_map = {key.id: repl} for the keys that pass the nesting filter
+   (keep: EVERY replacement of the map has the key's id at its root or does not contain it); then
+   sequentially `for id in id_subst_map: if (p := result.find_node(id)) is not None: replace_path`.
+   Spec: subst_sim m t - walking down from the root, the first node whose id is a key of m is replaced
+   by the mapped tree, every other node keeps label / id / openness / arity (path-wise reading:
+   C16_subst_sim_pathwise).
+   FULL STATEMENT: forall pairs t o, uniq_ids (erase t) -> shape_ok (erase t) = true ->
+     (forall kr, In kr pairs -> shape_ok (erase (snd kr)) = true) ->
+     exists t' o', subst_loop (id_subst_map pairs) t o = Ok (t', o')
+                   /\ erase t' = subst_sim (erase_map (id_subst_map pairs)) (erase t).
+   REFUTED on the faithful model (and on the code) when a replacement's root id is ANOTHER key of the
+   map (class K_chain): the loop finds the freshly inserted replacement and replaces it again.
+   PROVED under the guard K_chain (id_subst_map pairs) = false. *)
+Theorem C16_substitute_partial : forall pairs t o,
+  uniq_ids (erase t) -> shape_ok (erase t) = true ->
+  (forall kr, In kr pairs -> shape_ok (erase (snd kr)) = true) ->
+  K_chain (id_subst_map pairs) = false ->
+  exists t' o', subst_loop (id_subst_map pairs) t o = Ok (t', o')
+                /\ erase t' = subst_sim (erase_map (id_subst_map pairs)) (erase t).
+Proof. exact substitute_spec. Qed.
+Print Assumptions C16_substitute_partial.
+
+Theorem C16_substitute_refuted :
+  uniq_ids chain_t /\ has_unique_ids (fst (construct chain_t 40)) = true
+  /\ K_chain (id_subst_map chain_pairs) = true
+  /\ exists t' o', subst_loop (id_subst_map chain_pairs) (fst (construct chain_t 40)) 50 = Ok (t', o')
+       /\ erase t' = Node [60;115;62]%N 1 false [chain_rb; chain_b]
+       /\ subst_sim (erase_map (id_subst_map chain_pairs)) chain_t = Node [60;115;62]%N 1 false [chain_ra; chain_rb]
+       /\ erase t' <> subst_sim (erase_map (id_subst_map chain_pairs)) chain_t.
+Proof. exact substitute_chain_refuted. Qed.
+Print Assumptions C16_substitute_refuted.
+
+(* what the dict comprehension keeps: distinct keys; every entry comes from a pair of the argument
+   whose key id passes the nesting filter *)
+Theorem C16_id_subst_map : forall pairs,
+  NoDup (map fst (id_subst_map pairs)) /\
+  forall i r, In (i, r) (id_subst_map pairs) ->
+    keep pairs i = true /\ exists key, In (key, r) pairs /\ ci key = i.
+Proof. exact id_subst_map_ok. Qed.
+Print Assumptions C16_id_subst_map.
+
+(* path-wise reading of the spec function *)
+Theorem C16_subst_sim_pathwise : forall m p t s, subtree t p = Some s -> unmapped_above m t p ->
+  match lookup (tid s) m with
+  | Some r => subtree (subst_sim m t) p = Some r
+  | None => exists s', subtree (subst_sim m t) p = Some s' /\ lbl s' = lbl s /\ tid s' = tid s
+                       /\ opn s' = opn s /\ length (kids s') = length (kids s)
+  end.
+Proof. exact subst_sim_pathwise. Qed.
+Print Assumptions C16_subst_sim_pathwise.
+
+(* the loop on plain trees, general form: distinct keys, each key at most once in t, no replacement
+   contains another key *)
+Theorem C16_seq_subst : forall m t,
+  NoDup (map fst m) ->
+  (forall j, In j (map fst m) -> once j t) ->
+  (forall i r, In (i, r) m -> shape_ok r = true /\ forall j, In j (map fst m) -> j <> i -> absent j r) ->
+  shape_ok t = true ->
+  seq_subst m t = Ok (subst_sim m t).
+Proof. exact seq_subst_spec. Qed.
+Print Assumptions C16_seq_subst.
+
+Example C16_substitute_nonvacuous :
+  uniq_ids chain_t /\ shape_ok chain_t = true /\ K_chain (id_subst_map ok_pairs) = false
+  /\ length (id_subst_map ok_pairs) = 2
+  /\ subst_sim (erase_map (id_subst_map ok_pairs)) chain_t
+     = Node [60;115;62]%N 1 false [Node [60;97;62]%N 7 false [Node [120]%N 10 false []]; chain_rb].
+Proof. exact substitute_nonvacuous. Qed.
+Print Assumptions C16_substitute_nonvacuous.
+
+(* ---- new_ids (Tree/SubstMore.v): same tree up to ids (also by the code's own structurally_equal);
+   new ids = nid, nid+1, ... in post-order, hence pairwise different; next free id = nid + size ---- *)
+Theorem C16_new_ids : forall t nid o, shape_ok (erase t) = true ->
+  let t' := fst (c_new_ids t nid o) in
+  structurally_equal (erase t) (erase t') = true
+  /\ same_struct (erase t) (erase t')
+  /\ post_ids (erase t') = nseq nid (size (erase t))
+  /\ uniq_ids (erase t')
+  /\ fst (snd (c_new_ids t nid o)) = (nid + N.of_nat (size (erase t)))%N.
+Proof. exact new_ids_structure. Qed.
+Print Assumptions C16_new_ids.
+
+Example C16_new_ids_nonvacuous :
+  let t := fst (construct chain_t 40) in
+  shape_ok (erase t) = true
+  /\ erase (fst (c_new_ids t 100 50)) =
+     Node [60;115;62]%N 102 false [Node [60;97;62]%N 100 true []; Node [60;98;62]%N 101 true []].
+Proof. exact new_ids_nonvacuous. Qed.
+Print Assumptions C16_new_ids_nonvacuous.
 
 (* ---- replace_path ---- *)
 Theorem C16_replace_frame : forall p t r t', replace_path t p r = Ok t' ->
